@@ -567,3 +567,9 @@ CHECKS["C07"]["text"] += (
     " Derivations include files that carry the source's rows themselves as "
     "an internal basin addressed through a mapping (image, mask, two scalar "
     "features).")
+CHECKS["C12"]["text"] += (
+    " With filtering disabled an event limit is set as well (it is part of "
+    "the filter: all events are used).")
+CHECKS["C04"]["text"] += (
+    " Access patterns include slices with negative bounds and an empty "
+    "slice.")
